@@ -59,6 +59,7 @@ func C18(c *sim.Ctx) {
 	}
 	e := &env{c: c, s: &sched{}}
 	c.Logf("class %s gomaxprocs=%d", className[cls], runtime.GOMAXPROCS(0))
+	defer e.reportShape()
 	switch cls {
 	case clCancel, clCrash, clCommitErr, clReadErr:
 		runReal(e, cls)
@@ -69,6 +70,27 @@ func C18(c *sim.Ctx) {
 	default:
 		runPrune(e, cls)
 	}
+}
+
+// reportShape (deferred by C18) reports a registry-shape mismatch noted at some start of this run.
+// The run is not cut short at the start that noted it: the binary goes on with the registry the
+// node would really build, so that the behavioural oracles (which judge against the released bit
+// assignment, a constant of the harness) can show what the shape does to a database; the first of
+// them that fails is the run's violation. When none does - or when the harness's own machinery
+// gives up because its world no longer fits the registry - the shape mismatch is the violation.
+// Without a noted mismatch this function does nothing (it does not even recover).
+func (e *env) reportShape() {
+	if e.shape == nil {
+		return
+	}
+	ended := "the run completed without a behavioural violation"
+	if r := recover(); r != nil {
+		if strings.HasSuffix(fmt.Sprintf("%T", r), ".violationPanic") {
+			panic(r)
+		}
+		ended = fmt.Sprintf("the run then stopped with: %v", r)
+	}
+	failM(e.c, &mismatch{e.shape.class, e.shape.key, e.shape.detail + " (" + ended + ")"}, "registry construction")
 }
 
 func failM(c *sim.Ctx, m *mismatch, ctx string) {
@@ -98,7 +120,7 @@ func (rc *realCase) binary(f flags) binary {
 		build: func(rl *runLog, cancel func()) *migration.Registry {
 			a := rc.aux()
 			a.cancel = cancel
-			return prodRegistry(f, rl, a)
+			return prodRegistry(rc.e, f, rl, a)
 		},
 	}
 }
